@@ -1,0 +1,18 @@
+//go:build verif
+
+// Package veriflaws holds law predicates shared by the contract files
+// (hypotheses on typeclass instances passed into combinators).  Ghost code:
+// compiled only with the build tag "verif", interpreted by /verif/govc.
+package veriflaws
+
+import (
+	"github.com/csgura/fp"
+	"github.com/csgura/fp/internal/verifspec"
+)
+
+// EqLaws: Eqv is an equivalence relation.
+func EqLaws[T any](e fp.Eq[T]) bool {
+	return verifspec.Forall(func(a T) bool { return e.Eqv(a, a) }) &&
+		verifspec.Forall(func(a, b T) bool { return e.Eqv(a, b) == e.Eqv(b, a) }) &&
+		verifspec.Forall(func(a, b, c T) bool { return !(e.Eqv(a, b) && e.Eqv(b, c)) || e.Eqv(a, c) })
+}
